@@ -50,8 +50,9 @@ TABLE = [
     ("jxl_coding::ans::Histogram::parse", "shift > 13", 1, "ANS shift", []),
     ("jxl_coding::ans::Histogram::parse", "(idx+repeat_count) > alphabet_size", 1, "RLE repeat range", []),
     ("jxl_coding::ans::Histogram::parse", "acc > 4096", 2, "running sum of the distribution", []),
-    ("jxl_coding::IntegerConfig::parse", "msb_in_token > split_exponent", 1, "hybrid-uint config (shift amounts)", []),
-    ("jxl_coding::IntegerConfig::parse", "(lsb_in_token+msb_in_token) > split_exponent", 1, "hybrid-uint config (shift amounts)", []),
+    # jxl_coding::IntegerConfig::parse: `msb_in_token > split_exponent` and `msb + lsb > split_exponent` are decided by R-HYBRID-CONFIG
+    # (the parser evaluated from MIR for every field combination; run under C01 as well) - independent of how the tests are spelled
+    # (own benign rewrite: `checked_sub` + let-else, the sum taken from the built struct)
     ("jxl_coding::DecoderInner::read_varint_with_multiplier_clustered_lz77", "state.num_decoded == 0", 1, "LZ77 copy before any symbol (window index)", []),
     ("<jxl_frame::data::lf_global::LfGlobal<S> as jxl_oxide_common::Bundle<jxl_frame::data::lf_global::LfGlobalParams<'_, '_>>>::parse", "estimated_area > max_estimated_area", 1, "spline drawing work bound", []),
     ("jxl_vardct::hf_coeff::write_hf_coeff", "hfp >= num_hf_presets", 1, "HF preset index", []),
